@@ -208,3 +208,58 @@ Proof. exact phylip_unequal_lengths_refuted_lemma. Qed.
 Theorem paml_unequal_lengths_refuted :
   exists p, paml_parser (py_splitlines (paml_write 1 unequal_recs)) = POk p /\ p <> unequal_recs.
 Proof. exact paml_unequal_lengths_refuted_lemma. Qed.
+
+(** ------------------------------------------------------------------------------------------------
+    PHYLIP, the INTERLEAVED branch of MinimalPhylipParser (header with a third field).  The interleaved
+    rendering of an alignment ([phylip_interleaved_write]: header "n  m I", first block padded name + first slice
+    of every sequence, then after an empty line one indented block per further slice) is written in the model as
+    the format defines it — cogent3's writer only emits the sequential layout.  For every block width and every
+    alignment of the guard of [phylip_roundtrip] it parses to the same records as the sequential rendering. *)
+Theorem phylip_interleaved_roundtrip : forall w recs, (1 <= w)%nat -> recs <> [] ->
+  (forall r, In r recs -> ok_prec (align_length recs) r = true) ->
+  phylip_parser (py_splitlines (phylip_interleaved_write w recs)) = Some (POk (phylip_expected recs)).
+Proof. exact phylip_interleaved_lemma. Qed.
+
+Theorem phylip_interleaved_eq_sequential : forall w recs, (1 <= w)%nat -> recs <> [] ->
+  (forall r, In r recs -> ok_prec (align_length recs) r = true) ->
+  phylip_parser (py_splitlines (phylip_interleaved_write w recs)) = phylip_parser (py_splitlines (phylip_write w recs)).
+Proof. exact phylip_interleaved_eq_sequential_lemma. Qed.
+
+(** ------------------------------------------------------------------------------------------------
+    GenBank flat files.  Grammar ([ok_gbx]): per record a LOCUS line (name = one token of plain characters, any length
+    field), any number of one-line fields whose label has no dedicated handler, "ORIGIN", at least one line of the
+    sequence block (starts with a blank; blanks, digits and lower-case residues in ANY numbering / grouping; ends with a
+    residue), "//".  The standard layout (9-column numbering, 6 groups of 10) is an instance ([gbx_standard_ex]).
+    Every reader returns (LOCUS name, residues of the ORIGIN block) for every record; the bytes reader upper-cases. *)
+Theorem genbank_lines_reader : forall recs, (forall r, In r recs -> ok_gbx r = true) ->
+  gb_lines_parser (py_splitlines (gbx_write recs)) = GRecs (gbx_expected recs).
+Proof. exact gb_lines_roundtrip. Qed.
+
+(** the line reader fed by iter_splitlines: any cutting of the file into chunks *)
+Theorem genbank_lines_reader_any_chunking : forall recs chunks, (forall r, In r recs -> ok_gbx r = true) ->
+  concat chunks = gbx_write recs ->
+  gb_lines_parser (iter_splitlines chunks) = GRecs (gbx_expected recs).
+Proof. exact gb_lines_stream. Qed.
+
+(** minimal_parser / rich_parser (iter_genbank_records) after fix C06-7: any number of records *)
+Theorem genbank_bytes_reader_fixed : forall recs, (forall r, In r recs -> ok_gbx r = true) ->
+  gb_bytes_parser true (gbx_write recs) = GRecs (gbx_expected_upper recs).
+Proof. exact gb_bytes_fixed_roundtrip. Qed.
+
+(** the two readers agree (residues modulo the documented upper-casing of the bytes reader) *)
+Theorem genbank_readers_agree_fixed : forall recs, (forall r, In r recs -> ok_gbx r = true) ->
+  exists l, gb_lines_parser (py_splitlines (gbx_write recs)) = GRecs l
+            /\ gb_bytes_parser true (gbx_write recs) = GRecs (map upper_rec l).
+Proof. exact gb_readers_agree_fixed. Qed.
+
+(** source before fix C06-7: a single record is read ... *)
+Theorem genbank_bytes_reader_single_record : forall r, ok_gbx r = true ->
+  gb_bytes_parser false (gbx_write [r]) = GRecs (gbx_expected_upper [r]).
+Proof. exact gb_bytes_pinned_single. Qed.
+
+(** ... but a file with two records raises IndexError while the line reader reads it
+    (finding genbank-parsers:bytes-readers:multi-record) *)
+Theorem genbank_bytes_reader_multi_record_refuted :
+  ok_gbx gbx_w1 = true /\ gb_bytes_parser false (gbx_write [gbx_w1; gbx_w1]) = GErr 1
+  /\ gb_lines_parser (py_splitlines (gbx_write [gbx_w1; gbx_w1])) = GRecs (gbx_expected [gbx_w1; gbx_w1]).
+Proof. exact gb_bytes_pinned_multi_refuted. Qed.
